@@ -231,14 +231,17 @@ pub fn interesting_lens(rng: &mut Rng, thorough: bool) -> Vec<usize> {
     v
 }
 
-pub fn gen(rng: &mut Rng, count: usize, thorough: bool, out: &mut Vec<String>, part: u64, parts: u64) {
+pub fn gen(which: &str, rng: &mut Rng, count: usize, thorough: bool, out: &mut Vec<String>, part: u64, parts: u64) {
+    let codec = which == "attr.codec";
+    let writes = which == "attr.write";
     let mut idx: u64 = 0;
     let mut mine = |idx: &mut u64| {
         *idx += 1;
         (*idx - 1) % parts == part
     };
     // ---- (a) raw attribute decoder: every length 0..=48, random and structured
-    for len in 0..=48usize {
+    for len in 0..=(if codec { 48usize } else { 0 }) {
+        if !codec { break; }
         for variant in 0..6 {
             if !mine(&mut idx) {
                 continue;
@@ -260,7 +263,7 @@ pub fn gen(rng: &mut Rng, count: usize, thorough: bool, out: &mut Vec<String>, p
             out.push(format!("attr op=raw b={}", hex_or_dash(&b)));
         }
     }
-    if part == 0 {
+    if part == 0 && codec {
         // the 16-bit cast in the length comparison: more than 65535 bytes after the header
         for (total, l) in [(65540usize, 5usize), (65540, 0), (65539, 65535), (65540, 65535), (70000, 4464), (70000, 4465), (70000, 70)] {
             let mut b = vec![0x11u8; total];
@@ -272,6 +275,7 @@ pub fn gen(rng: &mut Rng, count: usize, thorough: bool, out: &mut Vec<String>, p
     // ---- (b) typed decoders: every kind x interesting lengths x {right type, other types}
     let lens = interesting_lens(rng, thorough);
     for kind in KINDS.iter() {
+        if !codec { break; }
         for &len in &lens {
             let reps = if len <= 40 { 3 } else { 2 };
             for _ in 0..reps {
@@ -328,7 +332,8 @@ pub fn gen(rng: &mut Rng, count: usize, thorough: bool, out: &mut Vec<String>, p
         }
     }
     // ---- exhaustive small domains (thorough): ERROR-CODE class/number bytes, address (reserved,family)
-    if thorough {
+    if !codec {
+    } else if thorough {
         for b2 in 0..256u32 {
             for b3 in 0..256u32 {
                 if !mine(&mut idx) {
@@ -373,7 +378,10 @@ pub fn gen(rng: &mut Rng, count: usize, thorough: bool, out: &mut Vec<String>, p
     for kind in KINDS.iter() {
         for i in 0..per_kind {
             let f = rand_fields(rng, kind);
-            out.push(format!("attr op=enc k={} f={}", kind, f));
+            if codec {
+                out.push(format!("attr op=enc k={} f={}", kind, f));
+                continue;
+            }
             // in-place write into destinations of several sizes
             let fill = *rng.pick(&["aa", "ff", "00", "5c"]);
             // size choice is relative to the padded length, which the executor knows; encode as
@@ -405,6 +413,7 @@ pub fn gen(rng: &mut Rng, count: usize, thorough: bool, out: &mut Vec<String>, p
             }
         }
         // beyond the constructor limits
+        if !codec { continue; }
         match *kind {
             "Username" => {
                 for n in [513usize, 514, 600] {
@@ -430,7 +439,7 @@ pub fn gen(rng: &mut Rng, count: usize, thorough: bool, out: &mut Vec<String>, p
         }
     }
     // raw attributes written in place: lengths 0..=763 sampled, every residue
-    for i in 0..(count * 4).max(40) {
+    for i in 0..(if writes { (count * 4).max(40) } else { 0 }) {
         let len = if i < 40 { i } else { rng.below(764) as usize };
         let v = rng.bytes(len);
         let ty = match rng.below(4) {
